@@ -425,6 +425,7 @@ func (r *r1) walkContext(x *r1Context) {
 				if v.IsField() {
 					r.site(ev)
 				}
+				v = accessVar(ev) // a field of a local struct value is a (virtual) local
 				if core.LockKindOf(v.Type()) != core.NotLock || core.IsAtomicType(v.Type()) {
 					continue
 				}
@@ -449,10 +450,10 @@ func (r *r1) walkContext(x *r1Context) {
 					escaped[v] = false
 					continue
 				}
-				if len(r.capturedBy[v]) == 0 {
+				if len(r.capturedBy[baseVar(v)]) == 0 {
 					continue
 				}
-				counted := escaped[v]
+				counted := escaped[v] || escaped[baseVar(v)]
 				if !counted {
 					for f := ev.Frame; f != nil; f = f.Parent {
 						if f.Lit != nil && r.escOf[f.Lit] != core.EscNone && !(v.Pos() >= f.Lit.Pos() && v.Pos() < f.Lit.End()) {
